@@ -100,6 +100,9 @@ def run(ctx):
     ctx.rule("R5", "final-size comparisons relate the right quantities, with the right strictness: a FIN below data already received, "
                    "data beyond the final size, a FIN that changes the final size, a reset below the received extent, a reset "
                    "that changes the final size")
+    ctx.rule("R6", "stream-count parameter selection: StreamIds::new receives, in this order, the local initial_max_streams_bidi, the local "
+                   "initial_max_streams_uni, the peer's initial_max_streams_bidi and the peer's initial_max_streams_uni; inside, the "
+                   "remote-id checker is built from the local pair and the local allocator from the peer's pair")
     ctx.rule("R4", "implicit opening: every id in NeedCreate is inserted and offered to the listener exactly once; the "
                    "cursor advances to sid.next and NeedCreate starts at the previous cursor")
 
@@ -244,6 +247,53 @@ def run(ctx):
                    "comparisons guarding the FinalSize error (relation that holds when the error is built): %s; expected %s — a "
                    "comparison of other quantities, or of other strictness, accepts a contradicting final size or rejects a "
                    "consistent one" % (got, e))
+
+    # ---------------------------------------------------------------- R6
+    PIDT = "qbase::param::core::ParameterId"
+    dn = ctx.anchor("R6", DS + "::new")
+    if dn:
+        sn = [(i, t) for i, t in dn.calls() if re.search(r"sid::StreamIds(<.*>|::<.*>)?::new$", callee(t))]
+        ctx.floor("R6", "StreamIds::new call in DataStreams::new", len(sn), 1)
+        want = [(1, "InitialMaxStreamsBidi", "local_params"), (2, "InitialMaxStreamsUni", "local_params"),
+                (3, "InitialMaxStreamsBidi", "remote_params"), (4, "InitialMaxStreamsUni", "remote_params")]
+        for (i, t) in sn[:1]:
+            for (k, pid, side) in want:
+                if k >= len(t["args"]):
+                    ctx.ob("R6", "%s|StreamIds::new arg%d" % (dn.short, k), False, dn.where(t["line"]), "argument missing")
+                    continue
+                got = sorted(v for (a, v) in deep_aggs(dn, t["args"][k]) if a == PIDT)
+                # which parameter set the value is read from: the &Parameters argument of DataStreams::new (arg 2 = local, 3 = remote)
+                sides = set()
+                for pl in deep_places(dn, t["args"][k], 8):
+                    for og in dn.trace_local(pl[0]):
+                        if og[0] == "arg" and "::Parameters<" in dn.local_ty(og[1]):
+                            sides.add(dn.local_name(og[1]) or "arg%d" % og[1])
+                    if 1 <= pl[0] <= dn.argc and "::Parameters<" in dn.local_ty(pl[0]):
+                        sides.add(dn.local_name(pl[0]) or "arg%d" % pl[0])
+                params = [l for l in range(1, dn.argc + 1) if "::Parameters<" in dn.local_ty(l)]
+                want_local = (dn.local_name(params[0]) or "arg%d" % params[0]) if len(params) == 2 else None
+                want_remote = (dn.local_name(params[1]) or "arg%d" % params[1]) if len(params) == 2 else None
+                ws = want_local if side == "local_params" else want_remote
+                ctx.ob("R6", "%s|StreamIds::new arg%d <- %s of the %s parameters" % (dn.short, k, pid, "local" if side == "local_params" else "peer's"),
+                       got == [pid] and sides == {ws}, dn.where(t["line"]),
+                       "ParameterId constants reaching the argument: %s; read from: %s — a limit taken from the wrong parameter lets the peer "
+                       "open more streams than were advertised (or refuses legitimate ones) while the advertised transport parameters "
+                       "stay correct" % (got, sorted(sides)))
+    si = ctx.anchor("R6", "qbase::sid::StreamIds::new")
+    if si:
+        # remote checker <- (local_max_bi, local_max_uni) = args 2,3 ; local allocator <- (remote_max_bi, remote_max_uni) = args 4,5
+        for rx, wa, what in ((r"ArcRemoteStreamIds(<.*>|::<.*>)?::new$", [2, 3], "remote-id checker <- local limits"),
+                             (r"ArcLocalStreamIds(<.*>|::<.*>)?::new$", [4, 5], "local allocator <- peer limits")):
+            cs = [(i, t) for i, t in si.calls() if re.search(rx, callee(t))]
+            ok = False
+            got = None
+            for (i, t) in cs[:1]:
+                got = []
+                for a in t["args"][1:3]:
+                    r_ = [og[1] for og in local_origins(si, a) if og[0] == "arg"]
+                    got.append(r_[0] if len(r_) == 1 else None)
+                ok = got == wa
+            ctx.ob("R6", "%s|%s" % (si.short, what), ok, si.where(), "arguments 1,2 of the constructor are parameters %s of StreamIds::new (expected %s)" % (got, wa))
 
     # ---------------------------------------------------------------- R4
     for name, inserts in ((DS + "::try_accept_bi_sid", [r"ArcInputGuard::insert$", r"ArcOutputGuard::insert$", r"ListenerGuard::push_bi_stream$"]),
